@@ -164,11 +164,19 @@ where
     >(
         i: S,
     ) -> IResult<S, Vec<Tree>, E> {
-        use nom::character::complete::{char, none_of, space0};
+        use nom::character::complete::{char, space0};
         context(
             "trees",
             cut(separated_list0(
-                delimited(space0, char('\n'), pair(S::sp, peek(none_of(" \n")))),
+                delimited(
+                    space0,
+                    char('\n'),
+                    // not `none_of`: on byte input it advances by the UTF-8 length of a non-ASCII byte
+                    pair(
+                        S::sp,
+                        peek(|i: S| i.parse_template1(|c| !" \n".contains(c))),
+                    ),
+                ),
                 Self::parse_tree,
             )),
         )
